@@ -39,7 +39,7 @@ CONSTANTS
 (* account, key scope, value (units of 1,000,000 sat), coinbase *)
 BaseAttr(c) ==
   CASE c = 1 -> [acct |-> 0, scope |-> "bip84", val |-> 8, cb |-> FALSE]
-    [] c = 2 -> [acct |-> 0, scope |-> "bip84", val |-> 4, cb |-> FALSE]
+    [] c = 2 -> [acct |-> 0, scope |-> "bip86", val |-> 4, cb |-> FALSE]     \* with coin 3: two taproot coins of one account
     [] c = 3 -> [acct |-> 0, scope |-> "bip86", val |-> 2, cb |-> FALSE]
     [] c = 4 -> [acct |-> 1, scope |-> "bip84", val |-> 1, cb |-> FALSE]
     [] c = 5 -> [acct |-> 0, scope |-> "bip84", val |-> 16, cb |-> TRUE]
